@@ -195,13 +195,13 @@ theorem foldl_insertRight_sorted {α : Type} (lt : α → α → Bool)
 /-! ### the four combining commands never panic (ZINTER / ZUNION / ZINTERSTORE / ZUNIONSTORE) -/
 
 /-- no `panic` leaf, and every primitive called is one that cannot fail -/
-def Prog.NoPanic {α : Type} : Prog α → Prop
+def Prog.ZNoPanic {α : Type} : Prog α → Prop
   | .ret _ => True
-  | .call p k => (∀ (c : Ctx) (s : State), (p.exec c s).isSome = true) ∧ ∀ r, (k r).NoPanic
+  | .call p k => (∀ (c : Ctx) (s : State), (p.exec c s).isSome = true) ∧ ∀ r, (k r).ZNoPanic
   | .panic _ => False
   | .unmod _ => True
 
-theorem noPanic_run {α : Type} (c : Ctx) : ∀ (p : Prog α) (s : State), p.NoPanic → ∀ w, (p.run c s).2 ≠ .panic w := by
+theorem zNoPanic_run {α : Type} (c : Ctx) : ∀ (p : Prog α) (s : State), p.ZNoPanic → ∀ w, (p.run c s).2 ≠ .panic w := by
   intro p
   induction p with
   | ret a => intro s _ w h; simp [Prog.run] at h
@@ -264,7 +264,7 @@ theorem head_filter_ne (cmd : List Bytes) (dest : Bytes) (h : cmd.headD [] ≠ d
     simp [h]
 
 /-- `setOrErr` around a program without panic -/
-theorem setOrErr_noPanic (es : List (Bytes × Val)) (k : Prog Res) (h : k.NoPanic) : (setOrErr es k).NoPanic := by
+theorem setOrErr_zNoPanic (es : List (Bytes × Val)) (k : Prog Res) (h : k.ZNoPanic) : (setOrErr es k).ZNoPanic := by
   unfold setOrErr
   refine ⟨fun c s => rfl, fun r => ?_⟩
   dsimp only
@@ -273,16 +273,16 @@ theorem setOrErr_noPanic (es : List (Bytes × Val)) (k : Prog Res) (h : k.NoPani
   · trivial
 
 theorem zCombineTail_noPanic (inter store ws : Bool) (dest agg : Bytes) (rows : List (Bytes × Bool × Val × Int)) :
-    (zCombineTail inter store ws dest agg rows).NoPanic := by
+    (zCombineTail inter store ws dest agg rows).ZNoPanic := by
   unfold zCombineTail
   repeat' split
   all_goals first
     | trivial
-    | (apply setOrErr_noPanic; trivial)
+    | (apply setOrErr_zNoPanic; trivial)
 
 theorem handleZCombine_noPanic (inter store : Bool) (c : Ctx) (cmd : List Bytes)
     (hh : isModifierTok (cmd.headD []) = false) (hd : store = true → cmd.headD [] ≠ cmd.getD 1 []) :
-    (handleZCombine inter store c cmd).NoPanic := by
+    (handleZCombine inter store c cmd).ZNoPanic := by
   have hx2 : ∀ w, extractKWA cmd ≠ .panic w := extractKWA_no_panic cmd hh
   have hx1 : store = true → ∀ w, extractKWA (cmd.filter (fun t => t != cmd.getD 1 [])) ≠ .panic w := by
     intro hs w
